@@ -153,6 +153,7 @@ func init() {
 			return nil, nil
 		},
 		"verifReach": func(e *Exec, fn *ssa.Function, a []Value) (Value, *GoPanic) {
+			e.settleAssumptions()
 			e.reached[e.argStr(a[0])] = true
 			return nil, nil
 		},
@@ -239,6 +240,20 @@ func init() {
 		"verifSchedule": func(e *Exec, fn *ssa.Function, a []Value) (Value, *GoPanic) {
 			e.envInit()
 			e.env.explore = a[0].(*Term).IsTrue()
+			return nil, nil
+		},
+		"verifOverride": func(e *Exec, fn *ssa.Function, a []Value) (Value, *GoPanic) {
+			// replace a callee by its contract (assume-guarantee): the contract is proved by a separate harness
+			name := e.argStr(a[0])
+			iv := a[1].(*IfaceV)
+			if e.overrides == nil {
+				e.overrides = map[string]*FuncV{}
+			}
+			if iv.T == nil {
+				delete(e.overrides, name)
+			} else {
+				e.overrides[name] = iv.V.(*FuncV)
+			}
 			return nil, nil
 		},
 		"verifAllocBytes": func(e *Exec, fn *ssa.Function, a []Value) (Value, *GoPanic) {
